@@ -39,6 +39,22 @@ func (e *Env) applyBucketOp(op Op) *Violation {
 	if tx == nil {
 		return nil // transaction not open (can happen in shrunk logs): no-op
 	}
+	if op.Op == OpWriteTo {
+		var cw countingWriter
+		size := tx.Size()
+		n, err := tx.WriteTo(&cw)
+		if err != nil {
+			return Violf("WriteTo(tx %d): %v", op.Tx, err)
+		}
+		if n != size || cw.n != size {
+			return Violf("WriteTo(tx %d) wrote %d bytes (returned %d), Tx.Size() is %d", op.Tx, cw.n, n, size)
+		}
+		if got := tx.Size(); got != size {
+			return Violf("Tx.Size() changed from %d to %d during WriteTo", size, got)
+		}
+		e.Label("writeto")
+		return nil
+	}
 	if op.Op == OpDumpTx {
 		got, dv := DumpTx(tx)
 		if dv != nil {
@@ -626,3 +642,7 @@ func keyOf(c CurCall) string {
 	}
 	return "(" + c.K.String() + ")"
 }
+
+type countingWriter struct{ n int64 }
+
+func (c *countingWriter) Write(p []byte) (int, error) { c.n += int64(len(p)); return len(p), nil }
